@@ -136,6 +136,16 @@ func runDevice(r *rand.Rand, ops []Op) ([]Case, error) {
 		var batch []sim.Dgram
 		var pend []pending
 		forged := map[uint32]bool{}
+		// At most one op of a batch travels as a keepalive (empty plaintext): it never reaches the
+		// TUN, so its verdict is read off the peer's rx byte counter (the sequential receiver adds
+		// len(plaintext)+32 for every message that passed the replay filter, before it looks at
+		// the length).  One per batch keeps the attribution exact.
+		kaPos := -1
+		if r.Intn(3) == 0 {
+			kaPos = r.Intn(n)
+		}
+		var kaPend *pending
+		rx0 := w.Dev.VerifPeer(cosim.NoisePK(a.Pub)).RxBytes
 		for k := 0; k < n && i < len(ops) && !ops[i].Reset; k++ {
 			h := pick()
 			o := ops[i]
@@ -149,6 +159,14 @@ func runDevice(r *rand.Rand, ops []Op) ([]Case, error) {
 				m[len(m)-1] ^= 0x40
 				forged[tag] = true
 				batch = append(batch, sim.Dgram{From: a.Addr, Data: m})
+			}
+			if k == kaPos {
+				batch = append(batch, sim.Dgram{From: a.Addr, Data: h.sess.Transport(o.C, nil)})
+				h.c.Ops = append(h.c.Ops, Op{C: o.C, L: limitSpec})
+				h.c.Obs = append(h.c.Obs, false)
+				kaPend = &pending{h, len(h.c.Ops) - 1, 0}
+				i++
+				continue
 			}
 			tag++
 			batch = append(batch, sim.Dgram{From: a.Addr, Data: h.sess.Transport(o.C, mkInner(tag))})
@@ -176,10 +194,27 @@ func runDevice(r *rand.Rand, ops []Op) ([]Case, error) {
 				return nil, fmt.Errorf("datagram tag %d written %d times", t, cnt)
 			}
 		}
+		dataBytes := uint64(0)
 		for _, p := range pend {
 			p.h.c.Obs[p.pos] = seen[p.tag] == 1
+			if p.h.c.Obs[p.pos] {
+				dataBytes += uint64(len(mkInner(p.tag)) + 32)
+			}
 			if p.h == nxt && p.h.c.Obs[p.pos] { // confirmed
 				prev, cur, nxt = cur, nxt, nil
+			}
+		}
+		if kaPend != nil {
+			delta := w.Dev.VerifPeer(cosim.NoisePK(a.Pub)).RxBytes - rx0
+			switch delta {
+			case dataBytes:
+			case dataBytes + 32:
+				kaPend.h.c.Obs[kaPend.pos] = true
+				if kaPend.h == nxt {
+					prev, cur, nxt = cur, nxt, nil
+				}
+			default:
+				return nil, fmt.Errorf("rx byte counter moved by %d for %d accepted data bytes and one keepalive", delta, dataBytes)
 			}
 		}
 	}
